@@ -212,6 +212,42 @@ func flagCases(c *rt.Ctx) []FCase {
 			out = append(out, FCase{Dialect: d, Base: m.Name, Edits: ids, Shape: shape, Indent: indents[r.IntN(4)/3]})
 		}
 	}
+	// (5) the CONNECTED MySQL driver in its three server flavours (mysql.Open on a connection that reports
+	// MySQL 8 / MariaDB / TiDB; TiDB has its own planner that aggregates per-change MySQL sub-plans): whole
+	// schemas, every hand-built list (incl. DROP DATABASE mixes and the {reversible, irreversible} clause
+	// pairs) and a stratified sample of single edits. Not randomised.
+	for _, fl := range mysqlFlavourNames {
+		models := pool("mysql")
+		for mi, m := range models {
+			if c.Quick() && mi >= 4 {
+				break
+			}
+			out = append(out, FCase{Dialect: "mysql", Flavour: fl, Base: m.Name, Shape: "create-all"},
+				FCase{Dialect: "mysql", Flavour: fl, Base: m.Name, Shape: "drop-all"})
+			for _, h := range handNames {
+				out = append(out, FCase{Dialect: "mysql", Flavour: fl, Base: m.Name, Shape: "hand:" + h})
+			}
+			if mi == 0 || !c.Quick() && mi < 4 {
+				for _, pn := range pairNames("mysql") {
+					out = append(out, FCase{Dialect: "mysql", Flavour: fl, Base: m.Name, Shape: "hand:" + pn})
+				}
+			}
+		}
+		seen := map[string]int{}
+		for _, m := range models {
+			for _, e := range dmodel.Catalogue(m) {
+				if seen[e.Kind] >= c.Pick(1, 6) {
+					continue
+				}
+				seen[e.Kind]++
+				shape := "modify"
+				if seen[e.Kind]%2 == 0 {
+					shape = "rev"
+				}
+				out = append(out, FCase{Dialect: "mysql", Flavour: fl, Base: m.Name, Edits: []string{e.ID}, Shape: shape})
+			}
+		}
+	}
 	for i := range out {
 		out[i].Part = "flag"
 	}
@@ -288,7 +324,7 @@ func replay(c *rt.Ctx, raw json.RawMessage) {
 				fmt.Printf("--- %s down part (class %q %s %s):\n%s\n", fn, r.Class, r.OOD, r.Why, r.Down)
 			}
 			before := c.Violations()
-			judgePlan(c, cs.Dialect, p, cs, true)
+			judgePlan(c, cs.label(), p, cs, true)
 			if c.Violations() > before {
 				fmt.Println("VIOLATED")
 			} else {
